@@ -148,7 +148,8 @@ def zif_faults(name, data, rng, quick):
         ver, isutc, isstd, leap, time, typ, char = tzif._hdr(data, 0)
         off2 = 44 + time * 4 + time + typ * 6 + char + leap * 8 + isstd + isutc
         vb.append(("magic2", data[:off2] + b"TZiX" + data[off2 + 4:]))
-        vb.append(("version2=0", data[:off2 + 4] + b"\0" + data[off2 + 5:]))
+        for v2 in (b"\0", b"1", b"4", b"X", b"\xff"):
+            vb.append(("version2=%s" % (v2.decode("latin-1") if v2.isalnum() else v2.hex()), data[:off2 + 4] + v2 + data[off2 + 5:]))
     except Exception:
         pass
     fams.append(("version-magic", vb))
@@ -204,6 +205,43 @@ def absent_keys(present, rng):
                     k.lower(), k[1:], "A" + k])
     out.update(["", "A" * 300, "\x7f", "!", "~~~~", "\xff\xfe"])
     return sorted(k for k in out if k not in s)
+
+
+def zif_memcheck_task(task):
+    """faulted images through the uninstrumented driver under valgrind memcheck: an image that is accepted must not
+    leave lookups working on memory nothing was loaded into (ASan does not see reads of uninitialised heap)"""
+    from .c10 import _VG
+    plaindir, name, kind, items, tmpd = task
+    sh = Shard()
+    d = tempfile.mkdtemp(prefix="zv-", dir=tmpd)
+    try:
+        for label, img in items:
+            p = os.path.join(d, "img")
+            with open(p, "wb") as fp:
+                fp.write(img)
+            reqs = ["O " + p] + zif_queries(None)
+            stdin = ("\n".join(reqs) + "\n").encode()
+            r = run(["valgrind", "-q", "--error-exitcode=97", "--track-origins=no", "--leak-check=no", "--num-callers=8",
+                     str(plaindir / "zifdrv")], stdin=stdin, cpu=120, wall=600)
+            sh.procs += 1
+            cls = ("memcheck", name.split("/")[0] if name.startswith("synthetic") else "real", kind)
+            if r.timed_out or r.cpu_exceeded:
+                sh.extra["inconclusive_memcheck_timeouts"] += 1
+                continue
+            m = _VG.search(r.err or b"")
+            if m is None and r.rc != 97:
+                sh.ok("zif-memcheck", cls + ("clean",))
+                continue
+            what = m.group(1).decode("latin-1").split(" of size")[0].replace(" ", "-")[:48] if m else "error"
+            fns = [g.decode("latin-1") for g in (m.group(2), m.group(3)) if g] if m else []
+            fn = next((f for f in fns if not f.startswith(("__", "str", "mem", "_IO", "vfprintf", "printf"))), fns[0] if fns else "?")
+            sh.bad("zif-memcheck", "zif:memcheck:%s:%s@%s" % (kind, what, fn),
+                   "%s [%s %s]: valgrind memcheck on zifdrv: %s in %s" % (name, kind, label, what, fn),
+                   dict(argv=["valgrind", "-q", "zifdrv"], variant="plain", files={"img": img.hex()},
+                        driver_requests=["O {dir}/img"] + reqs[1:], stderr=(r.err or b"")[:3000].decode("latin-1")), cls=cls + (what,))
+    finally:
+        shutil.rmtree(d, ignore_errors=True)
+    return sh
 
 
 def map_task(task):
@@ -361,7 +399,7 @@ def map_task(task):
 
 
 def _dispatch(t):
-    return zif_fault_task(t[1]) if t[0] == "zif" else map_task(t[1])
+    return zif_fault_task(t[1]) if t[0] == "zif" else zif_memcheck_task(t[1]) if t[0] == "zifvg" else map_task(t[1])
 
 
 SEED_ZONES = ["UTC", "Etc/GMT+12", "Asia/Kathmandu", "Africa/Monrovia", "Pacific/Kiritimati", "Asia/Pyongyang",
@@ -397,6 +435,16 @@ def main(tier, seed):
                 for i in range(0, len(items), 60):
                     tasks.append(("zif", (bindir, name, data, kind, items[i:i + 60], tmpd)))
         tasks.append(("zif", (bindir, "not-tzif", b"", "not-tzif", NOT_TZIF, tmpd)))
+        # the same faults of the fields that decide how the image is decoded, under memcheck
+        plaindir = ctx.bin("plain")
+        nvg = 0
+        for name, data in (seeds[:2] + seeds[-6:] if quick else seeds):
+            for kind, items in zif_faults(name, data, rng, quick):
+                if kind in ("version-magic", "header-count", "type-index"):
+                    items = items if kind == "version-magic" or not quick else items[::7]
+                    nvg += len(items)
+                    for i in range(0, len(items), 8):
+                        tasks.append(("zifvg", (plaindir, name, kind, items[i:i + 8], tmpd)))
         zones = [n for n, _ in tzif.all_zone_files() if "/" in n and not n.startswith(("right/", "posix/"))]
         zones.sort()
         for i, (label, pairs) in enumerate(make_sources(rng, zones, quick)):
@@ -414,7 +462,8 @@ def main(tier, seed):
                 "index bytes x {ntypes,255}, version byte x 6, second magic/version} = %d images, plus %d non-TZif "
                 "files; each opened through zifdrv (exact-size heap image) and queried (L/U/R at 8+ instants, T at "
                 "7 indices, N, copy); safety = no sanitizer/probe report, no signal, bounded CPU; accepted images "
-                "the oracle can read must answer from their own table. Zone maps: %d generated sources compiled by "
+                "the oracle can read must answer from their own table; the version, count and type-index faults again through "
+                "the uninstrumented driver under valgrind memcheck (uninitialised-value use). Zone maps: %d generated sources compiled by "
                 "`tzmap cc`; every present key must map to its zone, ~500 absent keys (neighbours, prefixes, "
                 "extensions, empty, long, high-bit) must be NULL, `tzmap show` must list the source, dconv --zone "
                 "MAP:KEY via TZMAP_DIR; compiled images <= 70 keys: every truncation, offset-field faults, byte "
